@@ -28,7 +28,7 @@ ALLOWED_AXIOMS = []
 PINNED = ["C16_full", "C16_full_any_pass", "C16_positional_pass", "C16_partial", "C16_partial_plan", "C16_inverse",
           "C16_spaced", "C16_quoted", "C16_regression_esc_op", "C16_regression_esc_blank", "C16_regression_esc_hash",
           "C16_regression_glue", "C16_regression_orglue", "C16_regression_paren", "C16_fold_full", "C16_fold_refuted",
-          "C16_fold_fixed_full"]
+          "C16_fold_fixed_full", "C16_lines_reach_parser", "C16_body_lines_reach_function", "C16_quote_hash_lines"]
 TRUSTED = [
     "Coq 8.16.1 kernel; vm_compute only in witnesses / examples",
     "hand transcription of expand_args, expand_args_in_tokens, expand_args_for_single_token (first-match function for its "
@@ -74,7 +74,7 @@ def gen_domain_lines(ctx, hp="prog"):
              "'{1,2}'", "> o1", ">o1", ">> o1", "2> o2", "2>&1", "1>&2", "< in", "<<< 'h s'", "$(" + hp + " @o q)",
              "`" + hp + " @o q`", '"$(' + hp + ' @o q r)"', "~", "*.t", "'*.t'", "A=1", "a=b", "-x", "--", "é日", "a;b", "'a;b'",
              "a\\ b", "\\;", "a\\|b", "\\#", "#c", "'#'", "a#b", "\\$V", "1", "+", "2>&1;", "x='a b'", "x=\"a b\"", "'a'b", "a'b'",
-             '"a"\'b\'', "'a';", "''", '""', "|", "||", "&&", ";", "&", "!", "%", "^"]
+             '"a"\'b\'', "'a';", "\"it's #1\"", "'say \"hi #2'", "\"a #b\"", "''", '""', "|", "||", "&&", ";", "&", "!", "%", "^"]
     for _ in range(20000 if ctx.thorough else 4000):
         n = rng.randint(0, 6)
         ws = [rng.choice(words) for _ in range(n)]
@@ -373,6 +373,22 @@ def model_strs(model, op, texts, name):
     return [C.dec(x[1:-1]) if x.startswith('"') else x for x in C.run_model(model, p)]
 
 
+def quote_hash_lines(rng, n):
+    """prog @ <quoted argument holding blank+hash, usually after the OTHER quote character> <observable tail>"""
+    out = []
+    for _ in range(n):
+        q = rng.choice("'\"")
+        o = "'" if q == '"' else '"'
+        pre = rng.choice(["it" + o + "s", "say " + o + "hi", o, "a" + o + o + o + "b", "a", "", o + " x " + o + " " + o])
+        post = rng.choice(["1", " x", "", "c " + o + "d", "#", " # y"])
+        arg = q + pre + " #" + post + q
+        more = rng.choice(["", " x", " " + q + "y" + q, " " + o + "z #w" + o, " a#b", " '#'"])
+        tail = rng.choice([" && prog @ ok", " > f", " ; prog @ z", " | prog @r", " || prog @ no", " x", " >> g ; prog @ t", " # tail comment", ""])
+        head = rng.choice(["prog @", "prog @o", "prog @ p", "prog @x3"])
+        out.append(head + " " + arg + more + tail)
+    return out
+
+
 def layer2(ctx, res, known, V, work, lines):
     rng = ctx.rng
     hp = os.path.join(ctx.helpers, "hp")
@@ -385,6 +401,12 @@ def layer2(ctx, res, known, V, work, lines):
              "prog @ a{1,2}b", "prog @x1 && prog @ no ; prog @ yes", "prog @o a | prog @r", "prog @   spaced    out  ",
              "prog @ a # comment", "prog @ $(prog @o q)", "(prog @ a;prog @ b)", "prog @ x='a b'", "prog @ 'a'b", "prog @x7",
              "prog @ a\\|b \\& \\> x", "prog @ a!b !", "prog @ a\\ "]
+    # a hash after a blank INSIDE quotes, with the other quote character before it (a reader that tracks quoting with
+    # one flag takes it for a comment), and something after the argument that makes a cut observable
+    fixed += ["prog @ \"it's #1\" x", "prog @ 'say \"hi #2' && prog @ ok", "prog @o \"don't # x\" > f", "prog @ \"a #b\" ; prog @ z",
+              "prog @ 'a #b' 'c' | prog @r", "prog @ 'x' # real comment"]
+    qh = quote_hash_lines(rng, 120 if ctx.thorough else 24)
+    fixed += qh
     pick = fixed + pool[:(700 if ctx.thorough else 110)]
     pick = [l.replace("prog", hp) for l in pick]
     pm = C.write_cases("c16_l2.txt", [C.case("law", l) for l in pick])
